@@ -96,19 +96,19 @@ theorem exit0_paths' (C : exit0_Ctx) (hG : exit0_Good C) (hm : C.env.stdinMode =
       C.dirs = pre ++ (exit0_pathDirs b.expr ps ++ rest) → exit0_Inv C (exit0_pathDirs b.expr ps ++ rest) none st w →
       wpS (mainP.blocks.paths C.env C.orc input b ps st)
         (fun _ st' w' => st'.error = false → exit0_Inv C rest none st' w' ∧
-          ∀ D ∈ (exit0_pathDirs b.expr ps).map (·.1), (w'.dir D).isSome = true) bb w := by
+          (∀ D ∈ (exit0_pathDirs b.expr ps).map (·.1), (w'.dir D).isSome = true) ∧ st'.fuelOut = st.fuelOut) bb w := by
   induction ps with
   | nil =>
     intro st w bb pre rest _ hinv
     rw [Own.paths_nil]
     intro _
-    exact ⟨by simpa [exit0_pathDirs] using hinv, by simp [exit0_pathDirs]⟩
+    exact ⟨by simpa [exit0_pathDirs] using hinv, by simp [exit0_pathDirs], rfl⟩
   | cons p more ih =>
     intro st w bb pre rest hs hinv
     have sticky : ∀ (st1 : MainSt) (b1 : Bool) (w1 : World), st1.error = true →
         wpS (mainP.blocks.paths C.env C.orc input b more st1)
           (fun _ st' w' => st'.error = false → exit0_Inv C rest none st' w' ∧
-            ∀ D ∈ (exit0_pathDirs b.expr (p :: more)).map (·.1), (w'.dir D).isSome = true) b1 w1 := by
+            (∀ D ∈ (exit0_pathDirs b.expr (p :: more)).map (·.1), (w'.dir D).isSome = true) ∧ st'.fuelOut = st.fuelOut) b1 w1 := by
       intro st1 b1 w1 h1
       exact wpS_mono (exit0_wpS_all (exit0_paths_sticky C.env C.orc input b hm more st1 h1) b1 w1)
         (fun _ r _ h he => by rw [h] at he; cases he)
@@ -158,13 +158,13 @@ theorem exit0_paths' (C : exit0_Ctx) (hG : exit0_Good C) (hm : C.env.stdinMode =
           have hfu : (sortedNames es).length + 1 +
               (if (Subdir.new = Subdir.new) then
                 (st.files.filter (fun x => x.1 == root ++ [47] ++ subdirName .cur)).length + 3 else 0) ≤
-              walkFuel st root np := by
+              walkFuel C.env st root np := by
             rw [World.length_sortedNames]
             simp only [if_true, walkFuel]
             omega
-          refine wpS_bind_mono (World.wpS_and (exit0_walk' C hG b.expr hstep (walkFuel st root np) _ st w3 b2 pre _ (sortedNames es) h3
+          refine wpS_bind_mono (World.wpS_and (exit0_walk' C hG b.expr hstep (walkFuel C.env st root np) _ st w3 b2 pre _ (sortedNames es) h3
             rfl rfl ⟨?_, hnp⟩ ⟨none, 0, hobj3⟩ hrem3 hs (fun _ => ⟨_, rfl⟩) hrokO hinvO hfu)
-            (dirsSame_walk C.env C.orc b.expr (walkFuel st root np) _ st b2 w3)) ?_
+            (dirsSame_walk C.env C.orc b.expr (walkFuel C.env st root np) _ st b2 w3)) ?_
           · intro d' hd'
             cases hd'
             simp [World.dirPath, hobj3]
@@ -172,7 +172,7 @@ theorem exit0_paths' (C : exit0_Ctx) (hG : exit0_Good C) (hm : C.env.stdinMode =
             dsimp only at hpost hsame4 ⊢
             by_cases herr4 : st4.error = true
             · refine wpS_bind_mono (exit0_wpS_triv) fun _ _ _ _ => sticky _ _ _ herr4
-            · obtain ⟨hinv4, hcur4⟩ := hpost (by simpa using herr4)
+            · obtain ⟨hinv4, hcur4, hfo4⟩ := hpost (by simpa using herr4)
               simp only [if_true] at hinv4
               have hnew4 : (w4.dir np).isSome = true := by rw [hsame4 np, hdir3]; rfl
               have hcur4' : (w4.dir (root ++ [47] ++ subdirName .cur)).isSome = true := hcur4 rfl
@@ -180,13 +180,14 @@ theorem exit0_paths' (C : exit0_Ctx) (hG : exit0_Good C) (hm : C.env.stdinMode =
                   exit0_Inv C (exit0_pathDirs b.expr more ++ rest) none st4 w5 →
                   wpS (mainP.blocks.paths C.env C.orc input b more st4)
                     (fun _ st' w' => st'.error = false → exit0_Inv C rest none st' w' ∧
-                      ∀ D ∈ (exit0_pathDirs b.expr (root :: more)).map (·.1), (w'.dir D).isSome = true) b5 w5 := by
+                      (∀ D ∈ (exit0_pathDirs b.expr (root :: more)).map (·.1), (w'.dir D).isSome = true) ∧
+                      st'.fuelOut = st.fuelOut) b5 w5 := by
                 intro w5 b5 hs5 hinv5
                 refine wpS_mono (World.wpS_and (ih st4 w5 b5 (pre ++ [(np, b.expr), (root ++ [47] ++ subdirName .cur, b.expr)]) rest
                   (by rw [hs]; simp) hinv5) (dirsSame_paths C.env C.orc input b hm more st4 b5 w5)) ?_
                 rintro _ st' w' ⟨hp, hsm⟩ he
-                obtain ⟨hI, hD⟩ := hp he
-                refine ⟨hI, ?_⟩
+                obtain ⟨hI, hD, hF⟩ := hp he
+                refine ⟨hI, ?_, hF.trans hfo4⟩
                 intro D hD'
                 rw [exit0_pathDirs_cons _ _ _ hsp, ← hnp'] at hD'
                 simp only [List.map_cons, List.mem_cons] at hD'
@@ -222,13 +223,13 @@ theorem exit0_blocks' (C : exit0_Ctx) (hG : exit0_Good C) (hm : C.env.stdinMode 
       C.dirs = pre ++ exit0_dirsOf bs → exit0_Inv C (exit0_dirsOf bs) none st w →
       wpS (mainP.blocks C.env C.orc input bs st)
         (fun _ st' w' => st'.error = false → exit0_Inv C [] none st' w' ∧
-          ∀ D ∈ (exit0_dirsOf bs).map (·.1), (w'.dir D).isSome = true) bb w := by
+          (∀ D ∈ (exit0_dirsOf bs).map (·.1), (w'.dir D).isSome = true) ∧ st'.fuelOut = st.fuelOut) bb w := by
   induction bs with
   | nil =>
     intro st w bb pre _ hinv
     rw [Own.blocks_nil]
     intro _
-    exact ⟨by simpa [exit0_dirsOf] using hinv, by simp [exit0_dirsOf]⟩
+    exact ⟨by simpa [exit0_dirsOf] using hinv, by simp [exit0_dirsOf], rfl⟩
   | cons b rest ih =>
     intro st w bb pre hs hinv
     rw [Own.blocks_cons]
@@ -240,12 +241,12 @@ theorem exit0_blocks' (C : exit0_Ctx) (hG : exit0_Good C) (hm : C.env.stdinMode 
     by_cases herr : st1.error = true
     · exact wpS_mono (exit0_wpS_all (exit0_blocks_sticky C.env C.orc input hm rest st1 herr) b1 w1)
         (fun _ r _ h he => by rw [h] at he; cases he)
-    · obtain ⟨hinv1, hD1⟩ := hpost (by simpa using herr)
+    · obtain ⟨hinv1, hD1, hF1⟩ := hpost (by simpa using herr)
       refine wpS_mono (World.wpS_and (ih (fun b' hb' => hstep b' (List.mem_cons_of_mem _ hb')) st1 w1 b1
         (pre ++ exit0_pathDirs b.expr b.paths) (by rw [hs]; simp) hinv1) (dirsSame_blocks C.env C.orc input hm rest st1 b1 w1)) ?_
       rintro _ st' w' ⟨hp, hsm⟩ he
-      obtain ⟨hI, hD⟩ := hp he
-      refine ⟨hI, ?_⟩
+      obtain ⟨hI, hD, hF⟩ := hp he
+      refine ⟨hI, ?_, hF.trans hF1⟩
       intro D hD'
       rw [List.map_append, List.mem_append] at hD'
       rcases hD' with hD' | hD'
@@ -274,7 +275,7 @@ theorem exit0_mainP' (C : exit0_Ctx) (hG : exit0_Good C) (hm : C.env.stdinMode =
     (hstep : ∀ b ∈ conf, exit0_StepOK C.env C.orc b.expr) (hreg : WholeReg C.w0 C.files0) (b : Bool) :
     wpS (mainP C.env C.orc confOk conf C.files0 input)
       (fun _ r w' => r.2.error = false → exit0_Inv C [] none r.2 w' ∧
-        ∀ D ∈ (exit0_dirsOf conf).map (·.1), (w'.dir D).isSome = true) b C.w0 := by
+        (∀ D ∈ (exit0_dirsOf conf).map (·.1), (w'.dir D).isSome = true) ∧ r.2.fuelOut = false) b C.w0 := by
   have hinv0 := exit0_inv_init C hG hreg
   rw [Own.mainP_eq]
   refine exit0_wpS_call_ft fun ft b1 => ?_
